@@ -38,7 +38,30 @@ struct Payload {
     drops: Arc<AtomicUsize>,
 }
 
-impl Payload {
+/// What the generated programs need from a protected value
+trait Val: Send + 'static {
+    fn new(drops: Arc<AtomicUsize>) -> Self;
+    fn touch(&mut self, tag: u32);
+}
+
+/// A protected value without any drop glue (`mem::needs_drop` is false): no destructor can observe when it is freed, only the
+/// sanitizer can (every operation writes to its memory)
+struct Plain([u64; 8]);
+
+impl Val for Plain {
+    fn new(_drops: Arc<AtomicUsize>) -> Plain {
+        Plain([0; 8])
+    }
+    fn touch(&mut self, tag: u32) {
+        let cell = &mut self.0[(tag % 8) as usize];
+        unsafe { std::ptr::write_volatile(cell, std::ptr::read_volatile(cell).wrapping_add(tag as u64)) };
+    }
+}
+
+impl Val for Payload {
+    fn new(d: Arc<AtomicUsize>) -> Payload {
+        Payload { data: Box::new([0; 8]), log: vec![], dead: Arc::new(AtomicBool::new(false)), drops: d }
+    }
     fn touch(&mut self, tag: u32) {
         assert!(!self.dead.load(Ordering::SeqCst), "DV-ASAN canary: protected value used after it was destroyed");
         self.data[(tag % 8) as usize] = self.data[(tag % 8) as usize].wrapping_add(tag as u64);
@@ -93,7 +116,7 @@ static HOOK: Once = Once::new();
 const INJECTED: &str = "dv-asan injected panic";
 static PANICS_ALLOWED: AtomicBool = AtomicBool::new(false);
 
-fn run_program(s: &mut Src) {
+fn run_program<P: Val>(s: &mut Src) {
     HOOK.call_once(|| {
         let prev = std::panic::take_hook();
         std::panic::set_hook(Box::new(move |info| {
@@ -125,13 +148,13 @@ fn run_program(s: &mut Src) {
     sch.despawn_threads_if_overloaded();
     let nobj = 1 + s.below(3);
     let nthreads = if single { let _ = s.below(3); 1 } else { 1 + s.below(3) };
-    let mut objs: Vec<Arc<Desync<Payload>>> = vec![];
+    let mut objs: Vec<Arc<Desync<P>>> = vec![];
     let mut drops = vec![];
     let poisoned: Arc<Vec<AtomicBool>> = Arc::new((0..nobj).map(|_| AtomicBool::new(false)).collect());
     for _ in 0..nobj {
         let d = Arc::new(AtomicUsize::new(0));
         drops.push(d.clone());
-        objs.push(Arc::new(Desync::new(Payload { data: Box::new([0; 8]), log: vec![], dead: Arc::new(AtomicBool::new(false)), drops: d })));
+        objs.push(Arc::new(Desync::new(P::new(d))));
     }
     // programs
     let mut progs: Vec<Vec<(Op, usize)>> = vec![];
@@ -173,7 +196,7 @@ fn run_program(s: &mut Src) {
     let (done_tx, done_rx) = mpsc::channel::<()>();
     let mut handles = vec![];
     for (ti, prog) in progs.into_iter().enumerate() {
-        let mut mine: Vec<Option<Arc<Desync<Payload>>>> = objs.iter().map(|o| Some(o.clone())).collect();
+        let mut mine: Vec<Option<Arc<Desync<P>>>> = objs.iter().map(|o| Some(o.clone())).collect();
         let poisoned = poisoned.clone();
         let done_tx = done_tx.clone();
         handles.push(std::thread::spawn(move || {
@@ -391,5 +414,10 @@ fuzz_target!(|data: &[u8]| {
         return;
     }
     let mut s = Src { d: data, i: 0 };
-    run_program(&mut s);
+    // a third of the programs work on values that have no destructor
+    if s.u8() % 3 == 0 {
+        run_program::<Plain>(&mut s);
+    } else {
+        run_program::<Payload>(&mut s);
+    }
 });
